@@ -346,6 +346,40 @@ func c18Validate(p *Prog, r *Report, stores []owStore, ax *Exec) {
 			partP = pn
 		}
 	}
+	// exact accepted ranges: [1, bound] for every index test
+	exact := true
+	exactDet := ""
+	nTests := 0
+	for _, e := range vx.Events {
+		if e.Kind != "return" || len(e.Rets) < 2 || e.Rets[0].String() != "false" {
+			continue
+		}
+		for _, g := range flattenGuards(e.Guards) {
+			if g.Kind != "or" {
+				continue
+			}
+			isIndexTest := false
+			for _, sub := range g.Sub {
+				if sub.Kind == "cmp" && (sub.P.MentionsAtom(varAtom(stageP)) || sub.P.MentionsAtom(varAtom(partP))) {
+					isIndexTest = true
+				}
+			}
+			if !isIndexTest {
+				continue
+			}
+			nTests++
+			lo, hi, ok := acceptedRange(g, names)
+			exactDet += fmt.Sprintf("[%s] accepts %s..%s; ", clip(g.Key(), 60), lo, hi)
+			if !ok || lo != "1" || !(hi == stageP || hi == partP) {
+				exact = false
+			}
+		}
+	}
+	if nTests < 3 {
+		exact = false
+		exactDet += fmt.Sprintf("only %d index range tests found, 3 confirmed", nTests)
+	}
+	r.Ob("index-ranges-exact", p.Pos(vfi.Decl.Pos()), exact, "every stage/organ index test rejects exactly the indices outside [1, bound]: "+exactDet)
 	r.Ob("bounds-in-validation", p.Pos(vfi.Decl.Pos()), stageP != "" && partP != "" && stageP != partP && lower["stage"] && lower["part"], fmt.Sprintf("stage indices are checked against [1, %s], organ indices against [1, %s] (roles derived from the comparisons: %v)", stageP, partP, role))
 	// which fields are the number of stages / organs: from the classic reader's loops
 	stageField, partField := c18CountFields(p)
@@ -799,4 +833,73 @@ func c18CallSite(p *Prog, r *Report) {
 		det += "; the override is matched against a different file name than the one read"
 	}
 	r.Ob("call", p.Pos(ow.Pos), ok, "override applied directly after the reader"+det)
+}
+
+// acceptedRange turns a rejection guard  (idx < L) || (idx > U)  into the accepted integer range [lo, hi];
+// hi is rendered as "<param>" or "<param>+k".
+func acceptedRange(g *Cond, params []string) (lo, hi string, ok bool) {
+	isParam := func(a *Atom) bool {
+		for _, n := range params {
+			if a.Kind == "var" && a.Root == n {
+				return true
+			}
+		}
+		return false
+	}
+	lo, hi = "?", "?"
+	for _, sub := range g.Sub {
+		if sub.Kind != "cmp" {
+			return lo, hi, false
+		}
+		var idx, par *Atom
+		var a, c, b int64
+		good := true
+		for _, t := range sub.P.sortedTerms() {
+			if !t.C.IsInt() {
+				good = false
+				continue
+			}
+			v := t.C.Num().Int64()
+			switch {
+			case len(t.M) == 0:
+				b = v
+			case len(t.M) == 1 && t.M[0].E == 1 && isParam(t.M[0].A):
+				par, c = t.M[0].A, v
+			case len(t.M) == 1 && t.M[0].E == 1 && idx == nil:
+				idx, a = t.M[0].A, v
+			default:
+				good = false
+			}
+		}
+		if !good || idx == nil || (a != 1 && a != -1) {
+			return lo, hi, false
+		}
+		op := sub.Op
+		if a == -1 {
+			b, c = -b, -c
+			op = flipOp(op)
+		}
+		// idx + c·par + b  op  0   is the REJECTED region
+		switch {
+		case par == nil && (op == token.LSS || op == token.LEQ):
+			m := -b // idx < −b  → accept ≥ −b
+			if op == token.LEQ {
+				m = -b + 1
+			}
+			lo = fmt.Sprintf("%d", m)
+		case par != nil && c == -1 && (op == token.GTR || op == token.GEQ):
+			k := -b // idx > par − b → accept ≤ par − b
+			if op == token.GEQ {
+				k = -b - 1
+			}
+			if k == 0 {
+				hi = par.Root
+			} else {
+				hi = fmt.Sprintf("%s%+d", par.Root, k)
+			}
+		default:
+			return lo, hi, false
+		}
+	}
+	return lo, hi, lo != "?" && hi != "?"
 }
